@@ -8,6 +8,7 @@ import (
 	"context"
 	"io"
 	"net"
+	"reflect"
 	"sync/atomic"
 )
 
@@ -138,4 +139,154 @@ func AMQPDial() AMQPDialFunc {
 		return *p
 	}
 	return nil
+}
+
+// ---- simulated processes (os/exec, syscall.Kill) and listening sockets ----
+
+// ProcSpec is what relic handed to exec.Cmd before Start.
+type ProcSpec struct {
+	Path  string
+	Args  []string
+	Env   []string
+	Stdin io.Reader
+	// Extra are the objects the activation shim attached in place of
+	// inherited file descriptors (listening sockets, notify socket).
+	Extra []any
+}
+
+// Proc is a started simulated process.
+type Proc interface {
+	Pid() int
+	// Wait blocks until the process has ended.
+	Wait() error
+	// Kill is SIGKILL.
+	Kill() error
+}
+
+// ExecFunc starts a simulated process.
+type ExecFunc func(spec *ProcSpec) (Proc, error)
+
+var execHook atomic.Pointer[ExecFunc]
+
+func SetExec(f ExecFunc) {
+	if f == nil {
+		execHook.Store(nil)
+		return
+	}
+	execHook.Store(&f)
+}
+
+func Exec() ExecFunc {
+	if p := execHook.Load(); p != nil {
+		return *p
+	}
+	return nil
+}
+
+// KillFunc delivers a signal to a simulated process.
+type KillFunc func(pid int, sig int) error
+
+var killHook atomic.Pointer[KillFunc]
+
+func SetKill(f KillFunc) {
+	if f == nil {
+		killHook.Store(nil)
+		return
+	}
+	killHook.Store(&f)
+}
+
+func Kill() KillFunc {
+	if p := killHook.Load(); p != nil {
+		return *p
+	}
+	return nil
+}
+
+// ListenFunc opens a simulated listening socket.
+type ListenFunc func(network, address string) (net.Listener, error)
+
+var listenHook atomic.Pointer[ListenFunc]
+
+func SetNetListen(f ListenFunc) {
+	if f == nil {
+		listenHook.Store(nil)
+		return
+	}
+	listenHook.Store(&f)
+}
+
+func NetListen() ListenFunc {
+	if p := listenHook.Load(); p != nil {
+		return *p
+	}
+	return nil
+}
+
+// ---- select statements ----
+
+// Selector is implemented by worlds that own the choice among the ready cases
+// of a select statement.  ready lists the indices of the cases that can fire
+// right now (at least two); the result is the one that may, or -1 to leave
+// the choice to the Go runtime.
+type Selector interface {
+	SelectChoose(site string, ready func() []int) int
+}
+
+// SelState is the simulator's verdict for one execution of a select.
+type SelState struct {
+	only int
+}
+
+// chanReady reports whether a receive from ch would succeed at once, without
+// consuming anything: a buffered channel holding a value, or a closed
+// signalling channel (element type struct{}, no buffer: nothing is ever sent
+// on those, so probing them cannot steal a value).
+func chanReady(ch any) bool {
+	v := reflect.ValueOf(ch)
+	if !v.IsValid() || v.Kind() != reflect.Chan || v.IsNil() {
+		return false
+	}
+	if v.Len() > 0 {
+		return true
+	}
+	if v.Cap() == 0 && v.Type().Elem().Kind() == reflect.Struct && v.Type().Elem().NumField() == 0 && v.Type().ChanDir()&reflect.RecvDir != 0 {
+		x, ok := v.TryRecv()
+		// would block: x is the zero Value; closed: x is a valid zero element
+		return ok || x.IsValid()
+	}
+	return false
+}
+
+// SelBegin is inserted by the overlay generator in front of select statements
+// whose cases are all receives; chans are the channel operands in source order.
+func SelBegin(site string, chans ...any) *SelState {
+	sel, ok := W().(Selector)
+	if !ok || sel == nil {
+		return nil
+	}
+	ready := func() []int {
+		var r []int
+		for i, c := range chans {
+			if chanReady(c) {
+				r = append(r, i)
+			}
+		}
+		return r
+	}
+	i := sel.SelectChoose(site, ready)
+	if i < 0 {
+		return nil
+	}
+	return &SelState{only: i}
+}
+
+// SelCh passes a channel operand through, or replaces it by a nil channel
+// (which never fires) when the simulator chose another ready case.
+func SelCh[C any](k *SelState, i int, c C) C {
+	if k != nil && k.only != i {
+		var zero C
+		return zero
+	}
+	return c
 }
